@@ -206,6 +206,16 @@ class Recorder:
                    space_shape=[int(x) for x in sp.shape], space_dtype=str(sp.dtype),
                    low=milli(np.min(sp.low)), high=milli(np.max(sp.high)),
                    steps=int(env.steps))
+        try:
+            d_ = scenario.get_description()
+            adv["description"] = dict(subnets=int(d_["Subnets"]), hosts=int(d_["Hosts"]), os=int(d_["OS"]),
+                                      services=int(d_["Services"]), processes=int(d_["Processes"]),
+                                      exploits=int(d_["Exploits"]), privescs=int(d_["PrivEscs"]),
+                                      actions=int(d_["Actions"]), obs_dims=[int(x) for x in d_["Observation Dims"]],
+                                      states_mod=int(d_["States"] % 1000003),
+                                      step_limit=-1 if d_["Step Limit"] is None else int(d_["Step Limit"]))
+        except Exception as ex:      # noqa
+            adv["description"] = dict(raised=type(ex).__name__)
         if flat_actions:
             adv["space_n"] = int(env.action_space.n)
         else:
@@ -431,6 +441,28 @@ class Recorder:
                                                 perm=bool(aux["Permission Error"]), undef=bool(aux["Undefined Error"])),
                               roundtrip_diff=diff_rows(ref, o2.tensor),
                               shape_ok=bool(tuple(o2.tensor.shape) == (self.nh + 1, ref.shape[1]))))
+
+    def init_states(self, eid):
+        """generate_initial_state() / generate_random_initial_state(): what they return, and that the environment
+        itself is left alone"""
+        env = self.envs[eid]
+        cur = sha(env.current_state.tensor)
+        out = dict(ev="initstate", env=eid)
+        try:
+            with self.trip.scripted(0.5):
+                s0 = env.generate_initial_state()
+            out["initial"] = rows_of(s0.tensor)
+        except Exception as ex:      # noqa
+            out["initial"] = []
+            out["initial_raised"] = type(ex).__name__
+        try:
+            s1 = env.generate_random_initial_state()
+            out["random"] = rows_of(s1.tensor)
+        except Exception as ex:      # noqa
+            out["random"] = []
+            out["random_raised"] = type(ex).__name__
+        out["cur_unchanged"] = bool(cur == sha(env.current_state.tensor))
+        return self.emit(out)
 
     def sample_step(self, eid, u):
         """step with whatever the action space's own sampler returns"""
